@@ -13,10 +13,10 @@ case "$place" in /*|*seed*|"") place=. ;; esac
 [ -d "$place" ] || place=.
 run=$(python3 -c "import json,re;c=json.load(open('$D/meta.json')).get('demo_cmd','');m=re.search(r'-run\s+(\S+)',c);print(m.group(1) if m else 'Test')")
 cp "$D/demo_test.go" "$place/zz_seed_demo_test.go"
-go test -vet=off -count=1 -run "$run" "./$place" >/tmp/sv.base 2>&1; base=$?
+go test -vet=off -count=1 -run "$run" "./$place" >/dev/null 2>&1; base=$?
 git apply "$D/patch.diff" || { echo "VERIFY $D: patch does not apply"; exit 3; }
-go test -vet=off -count=1 -run "$run" "./$place" >/tmp/sv.mut 2>&1; mut=$?
+go test -vet=off -count=1 -run "$run" "./$place" >/dev/null 2>&1; mut=$?
 rm "$place/zz_seed_demo_test.go"
-go build ./... >/tmp/sv.build 2>&1; b=$?
-go test -vet=off -count=1 ./... >/tmp/sv.suite 2>&1; suite=$?
+go build ./... >/dev/null 2>&1; b=$?
+go test -vet=off -count=1 ./... >/dev/null 2>&1; suite=$?
 echo "VERIFY $D: demo-without-patch=$base (want 0) demo-with-patch=$mut (want !=0) build=$b suite-with-patch=$suite (want 0)"
